@@ -43,6 +43,7 @@ func runC05(c *Ctx) {
 	dispatchDoneLast(c)
 	// a goroutine that writes the response is gone (or has nothing left to write) when the transport returns (C12)
 	c12WriterGoroutineBounded(c)
+	layoutAgreement(c)
 }
 
 // ------------------------------------------------------------------------------------------------
